@@ -476,17 +476,17 @@ end KeyLemmas
 
 section Invariant
 variable {φ : Type} [DecidableEq φ] (cfg : Cfg) (hb : Bytes → φ) (fp : Manifest φ → φ)
-variable {Obj : Type} (compileRel : Rel → Obj)
+variable {Obj Stored : Type} (compileRel : Rel → Obj) (storeObj : Obj → Stored) (loadObj : Stored → Obj)
 
 /-- every entry was produced by compiling *some* unit (in the universe `S`) that has this fingerprint -/
-def CacheOK (S : Inputs → Prop) (c : CacheMap φ Obj) : Prop :=
-  ∀ e ∈ c, ∃ g t, S (g, t) ∧ e.1 = fp (key cfg hb fp g t) ∧ e.2 = compileRel (relevant g t)
+def CacheOK (S : Inputs → Prop) (c : CacheMap φ Stored) : Prop :=
+  ∀ e ∈ c, ∃ g t, S (g, t) ∧ e.1 = fp (key cfg hb fp g t) ∧ e.2 = storeObj (compileRel (relevant g t))
 
 /-- the key determines the relevant inputs on the units of `S` -/
 def KeyCoversOn (S : Inputs → Prop) : Prop :=
   ∀ i₁ i₂ : Inputs, S i₁ → S i₂ → key cfg hb fp i₁.1 i₁.2 = key cfg hb fp i₂.1 i₂.2 → relevant i₁.1 i₁.2 = relevant i₂.1 i₂.2
 
-theorem lookup_mem {c : CacheMap φ Obj} {k : φ} {o : Obj} (h : lookup c k = some o) : (k, o) ∈ c := by
+theorem lookup_mem {c : CacheMap φ Stored} {k : φ} {o : Stored} (h : lookup c k = some o) : (k, o) ∈ c := by
   unfold lookup at h
   split at h
   · rename_i e he
@@ -499,11 +499,12 @@ theorem lookup_mem {c : CacheMap φ Obj} {k : φ} {o : Obj} (h : lookup c k = so
     exact hm
   · cases h
 
-theorem buildPkg_ok (S : Inputs → Prop) (fpi : Function.Injective fp) (hk : KeyCoversOn cfg hb fp S)
-    (o : BuildOpts) (g : Global) (c : CacheMap φ Obj) (t : PkgT) (hS : S (g, t))
-    (hc : CacheOK cfg hb fp compileRel S c) :
-    (buildPkg cfg hb fp compileRel o g c t).2 = compileRel (relevant g t)
-      ∧ CacheOK cfg hb fp compileRel S (buildPkg cfg hb fp compileRel o g c t).1 := by
+theorem buildPkg_ok (S : Inputs → Prop) (fpi : Function.Injective fp) (hround : ∀ o, loadObj (storeObj o) = o)
+    (hk : KeyCoversOn cfg hb fp S)
+    (o : BuildOpts) (g : Global) (c : CacheMap φ Stored) (t : PkgT) (hS : S (g, t))
+    (hc : CacheOK cfg hb fp compileRel storeObj S c) :
+    (buildPkg cfg hb fp compileRel storeObj loadObj o g c t).2 = compileRel (relevant g t)
+      ∧ CacheOK cfg hb fp compileRel storeObj S (buildPkg cfg hb fp compileRel storeObj loadObj o g c t).1 := by
   unfold buildPkg
   simp only
   split
@@ -514,7 +515,7 @@ theorem buildPkg_ok (S : Inputs → Prop) (fpi : Function.Injective fp) (hk : Ke
       simp only at hk' ho'
       have := hk (g, t) (g', t') hS hS' (fpi hk')
       simp only at this
-      rw [ho', this]
+      rw [ho', this, hround]
     · cases hl
   · refine ⟨rfl, ?_⟩
     split
@@ -524,15 +525,16 @@ theorem buildPkg_ok (S : Inputs → Prop) (fpi : Function.Injective fp) (hk : Ke
       · exact hc e he
     · exact hc
 
-theorem buildProg_ok (S : Inputs → Prop) (fpi : Function.Injective fp) (hk : KeyCoversOn cfg hb fp S)
-    (o : BuildOpts) (g : Global) : ∀ (ts : List PkgT) (c : CacheMap φ Obj), (∀ t ∈ ts, S (g, t)) →
-      CacheOK cfg hb fp compileRel S c →
-      (buildProg cfg hb fp compileRel o g c ts).2 = cleanBuild compileRel g ts
-        ∧ CacheOK cfg hb fp compileRel S (buildProg cfg hb fp compileRel o g c ts).1
+theorem buildProg_ok (S : Inputs → Prop) (fpi : Function.Injective fp) (hround : ∀ o, loadObj (storeObj o) = o)
+    (hk : KeyCoversOn cfg hb fp S)
+    (o : BuildOpts) (g : Global) : ∀ (ts : List PkgT) (c : CacheMap φ Stored), (∀ t ∈ ts, S (g, t)) →
+      CacheOK cfg hb fp compileRel storeObj S c →
+      (buildProg cfg hb fp compileRel storeObj loadObj o g c ts).2 = cleanBuild compileRel g ts
+        ∧ CacheOK cfg hb fp compileRel storeObj S (buildProg cfg hb fp compileRel storeObj loadObj o g c ts).1
   | [], c, _, hc => ⟨rfl, hc⟩
   | t :: ts, c, hS, hc => by
-    have h1 := buildPkg_ok cfg hb fp compileRel S fpi hk o g c t (hS t List.mem_cons_self) hc
-    have h2 := buildProg_ok S fpi hk o g ts _ (fun u hu => hS u (List.mem_cons_of_mem _ hu)) h1.2
+    have h1 := buildPkg_ok cfg hb fp compileRel storeObj loadObj S fpi hround hk o g c t (hS t List.mem_cons_self) hc
+    have h2 := buildProg_ok S fpi hround hk o g ts _ (fun u hu => hS u (List.mem_cons_of_mem _ hu)) h1.2
     simp only [buildProg, cleanBuild, List.map]
     exact ⟨by rw [h1.1, h2.1]; rfl, h2.2⟩
 
@@ -542,19 +544,20 @@ def StepIn (S : Inputs → Prop) : Step → Prop
   | .edit p => ProgIn S p
   | _ => True
 
-structure Inv (S : Inputs → Prop) (s : State φ Obj) : Prop where
+structure Inv (S : Inputs → Prop) (s : State φ Stored Obj) : Prop where
   prog : ProgIn S s.prog
-  cache : CacheOK cfg hb fp compileRel S s.cache
+  cache : CacheOK cfg hb fp compileRel storeObj S s.cache
   trace : ∀ po ∈ s.trace, po.2 = cleanBuild compileRel po.1.glob po.1.pkgs
 
-theorem step_inv (S : Inputs → Prop) (fpi : Function.Injective fp) (hk : KeyCoversOn cfg hb fp S)
-    (s : State φ Obj) (st : Step) (hst : StepIn S st) (h : Inv cfg hb fp compileRel S s) :
-    Inv cfg hb fp compileRel S (step cfg hb fp compileRel s st) := by
+theorem step_inv (S : Inputs → Prop) (fpi : Function.Injective fp) (hround : ∀ o, loadObj (storeObj o) = o)
+    (hk : KeyCoversOn cfg hb fp S)
+    (s : State φ Stored Obj) (st : Step) (hst : StepIn S st) (h : Inv cfg hb fp compileRel storeObj S s) :
+    Inv cfg hb fp compileRel storeObj S (step cfg hb fp compileRel storeObj loadObj s st) := by
   cases st with
   | edit p => exact ⟨hst, h.cache, h.trace⟩
   | clean => exact ⟨h.prog, fun e he => (by cases he), h.trace⟩
   | build o =>
-    have hb' := buildProg_ok cfg hb fp compileRel S fpi hk o s.prog.glob s.prog.pkgs s.cache h.prog h.cache
+    have hb' := buildProg_ok cfg hb fp compileRel storeObj loadObj S fpi hround hk o s.prog.glob s.prog.pkgs s.cache h.prog h.cache
     refine ⟨h.prog, hb'.2, ?_⟩
     intro po hpo
     simp only [step] at hpo
@@ -562,16 +565,17 @@ theorem step_inv (S : Inputs → Prop) (fpi : Function.Injective fp) (hk : KeyCo
     · exact hb'.1
     · exact h.trace po hpo
 
-theorem run_inv (S : Inputs → Prop) (fpi : Function.Injective fp) (hk : KeyCoversOn cfg hb fp S) :
-    ∀ (steps : List Step) (s : State φ Obj), (∀ st ∈ steps, StepIn S st) → Inv cfg hb fp compileRel S s →
-      Inv cfg hb fp compileRel S (run cfg hb fp compileRel s steps)
+theorem run_inv (S : Inputs → Prop) (fpi : Function.Injective fp) (hround : ∀ o, loadObj (storeObj o) = o)
+    (hk : KeyCoversOn cfg hb fp S) :
+    ∀ (steps : List Step) (s : State φ Stored Obj), (∀ st ∈ steps, StepIn S st) → Inv cfg hb fp compileRel storeObj S s →
+      Inv cfg hb fp compileRel storeObj S (run cfg hb fp compileRel storeObj loadObj s steps)
   | [], _, _, h => h
   | st :: rest, s, hs, h =>
-    run_inv S fpi hk rest _ (fun x hx => hs x (List.mem_cons_of_mem _ hx))
-      (step_inv cfg hb fp compileRel S fpi hk s st (hs st List.mem_cons_self) h)
+    run_inv S fpi hround hk rest _ (fun x hx => hs x (List.mem_cons_of_mem _ hx))
+      (step_inv cfg hb fp compileRel storeObj loadObj S fpi hround hk s st (hs st List.mem_cons_self) h)
 
-theorem run_append (s : State φ Obj) (a b : List Step) :
-    run cfg hb fp compileRel s (a ++ b) = run cfg hb fp compileRel (run cfg hb fp compileRel s a) b := by
+theorem run_append (s : State φ Stored Obj) (a b : List Step) :
+    run cfg hb fp compileRel storeObj loadObj s (a ++ b) = run cfg hb fp compileRel storeObj loadObj (run cfg hb fp compileRel storeObj loadObj s a) b := by
   induction a generalizing s with
   | nil => rfl
   | cons x xs ih => simp only [List.cons_append, run]; exact ih _
@@ -579,10 +583,28 @@ theorem run_append (s : State φ Obj) (a b : List Step) :
 /-- two units with the same fingerprint: after `build, edit, build` the second build hands out the FIRST unit's archive -/
 theorem served_stale (g₁ g₂ : Global) (t₁ t₂ : PkgT) (hk : fp (key cfg hb fp g₂ t₂) = fp (key cfg hb fp g₁ t₁))
     (hn : (t₁.data.name != "main") = true) (hkind₁ : cachedKind t₁.data = true) (hkind₂ : cachedKind t₂.data = true) :
-    served cfg hb fp compileRel ⟨g₁, [t₁]⟩ [.build {}, .edit ⟨g₂, [t₂]⟩, .build {}]
-      = some [compileRel (relevant g₁ t₁)] := by
+    served cfg hb fp compileRel storeObj loadObj ⟨g₁, [t₁]⟩ [.build {}, .edit ⟨g₂, [t₂]⟩, .build {}]
+      = some [loadObj (storeObj (compileRel (relevant g₁ t₁)))] := by
   simp [served, run, step, State.init, buildProg, buildPkg, lookup, List.find?, hk, hn, hkind₁, hkind₂]
 
 end Invariant
+
+/-! ## the metadata round trip -/
+
+/-- **`load (store m) = m`**: what `tryLoadFromCache` reads back is what `saveToCache` was given — link arguments with
+    their order and multiplicity, `NeedRt`, `NeedPyInit` (an all-zero record is stored as "no metadata section") -/
+theorem loadMeta_storeMeta (m : Meta) : loadMeta (storeMeta m) = m := by
+  unfold storeMeta
+  split
+  · rename_i h
+    obtain ⟨h1, h2, h3⟩ := h
+    cases m
+    simp_all [loadMeta]
+  · rfl
+
+theorem loadArtifact_storeArtifact {A : Type} (a : Artifact A) : loadArtifact (storeArtifact a) = a := by
+  cases a
+  simp [loadArtifact, storeArtifact, loadMeta_storeMeta]
+
 
 end LlgoVerif.Cache
